@@ -110,7 +110,9 @@ class NonTrainable(AbstractUnwrappable[T]):
     _dummy: ClassVar[None] = None
 
     def unwrap(self) -> T:
-        differentiable, static = eqx.partition(self.tree, eqx.is_array_like)
+        # Only arrays need stop_gradient: passing python scalars (e.g. shapes) through it
+        # would turn them into jax types, which breaks static attributes when unwrapped.
+        differentiable, static = eqx.partition(self.tree, eqx.is_array)
         return eqx.combine(lax.stop_gradient(differentiable), static)
 
 
